@@ -122,7 +122,7 @@ func c16Fixed() []c16Case {
 	}
 }
 
-var c16Entries = []string{"template-render", "vue-render", "vue-fragment", "render-string"}
+var c16Entries = []string{"template-render", "vue-render", "vue-fragment", "render-string", "vue-nodes"}
 
 func c16Render(cs c16Case, entry string, t vuego.Template, mfs fstest.MapFS) (string, error) {
 	var buf bytes.Buffer
@@ -135,6 +135,13 @@ func c16Render(cs c16Case, entry string, t vuego.Template, mfs fstest.MapFS) (st
 		err = vuego.VerifVue(t).Render(&buf, cs.page, data)
 	case "vue-fragment":
 		err = vuego.VerifVue(t).RenderFragment(&buf, cs.page, data)
+	case "vue-nodes":
+		// the caller parses the page itself and hands the nodes over (twice the same nodes: they are not the engine's to change)
+		nodes, perr := vuego.VerifParseTemplateBytes([]byte(cs.files[cs.page]))
+		if perr != nil {
+			return "", perr
+		}
+		err = vuego.VerifVue(t).RenderNodes(&buf, nodes, data)
 	case "render-string":
 		err = t.New().Fill(data).RenderString(context.Background(), &buf, cs.files[cs.page])
 	}
@@ -153,7 +160,7 @@ func c16Eval(cs c16Case, entry string, repeats int) *Case {
 	if hasLayout && entry != "template-render" {
 		return nil // layouts exist only for Template.Render
 	}
-	if entry == "render-string" && strings.HasPrefix(cs.files[cs.page], "---") {
+	if (entry == "render-string" || entry == "vue-nodes") && strings.HasPrefix(cs.files[cs.page], "---") {
 		return nil
 	}
 	t := vuego.NewFS(mfs)
